@@ -680,6 +680,12 @@ func (c *Conn) readRecordOrCCS(expectChangeCipherSpec bool) error {
 		record := c.rawInputBuf[:recordHeaderLen+n]
 		data, typ, err := c.in.decrypt(record)
 		if err != nil {
+			// 握手完成后，认证失败的记录（伪造或损坏的数据报）与 ReadFrom 路径一样静默丢弃，
+			// 不影响后续记录的接收（RFC 6347 §4.1.2.7）；握手期间仍按致命错误处理。
+			if handshakeComplete {
+				c.rawInputBuf = c.rawInputBuf[recordHeaderLen+n:]
+				continue
+			}
 			return c.in.setErrorLocked(c.sendAlert(err.(alert)))
 		}
 		// 重放检查（解密成功后执行，RFC 6347 §4.1.2.6）
